@@ -134,7 +134,7 @@ def run(name, root, defs, cfg, workers=1, timeout=3600, simulate=None, depth=Non
     d = _prepare(name, root, defs, cfg)
     out = os.path.join(d, "tlc.out")
     meta = os.path.join(d, "meta")
-    cmd = ["java", f"-Xss{xss}", f"-Xmx{heap}", "-XX:+UseParallelGC", "-cp", f"{JAR}:{DEPS}", "tlc2.TLC",
+    cmd = ["java", f"-Xss{xss}", f"-Xmx{heap}", "-XX:+UseSerialGC", "-XX:CICompilerCount=2", "-cp", f"{JAR}:{DEPS}", "tlc2.TLC",
            "-workers", str(workers), "-metadir", meta, "-noGenerateSpecTE", "-config", "MC.cfg"]
     if simulate:
         cmd += ["-simulate", simulate]
